@@ -176,7 +176,7 @@ impl Prop for C19 {
 
     fn assumptions() -> Vec<String> {
         vec![
-            "the line -> word map (clean, optional NFKC, words with their leading whitespace) uses the crate's public clean()/normalize() and an independent scanner for `\\s+\\S+|^\\S+`".into(),
+            "the line -> word map (clean, optional normalisation, words with their leading whitespace) is independent of the crate (split/join, per-cluster unicode-normalization) except for lines with a grapheme cluster that mixes whitespace and other code points, where the crate's public clean()/normalize() are used; independent scanner for `\\s+\\S+|^\\S+`".into(),
             "pair frequency = number of adjacent positions (overlapping occurrences counted), weighted by word count; merges are applied left to right without overlap".into(),
             "ties between equally frequent pairs are allowed (validity predicate, explored depth-first with a budget of 4000 nodes; an exhausted budget is never an alarm)".into(),
         ]
@@ -243,10 +243,29 @@ impl Prop for C19 {
         let mut lines_used: Vec<String> = vec![];
         for lines in &c.files {
             for l in lines.iter().take(c.max_lines.unwrap_or(usize::MAX)) {
-                let mut l = clean(l, true);
-                if let Some(n) = norm {
-                    l = normalize(&l, n, true);
-                }
+                // the corpus as train_bpe is documented to see it: cleaned, then normalised. On
+                // lines without a mixed cluster this is computed independently of the crate's
+                // helpers (split/join, per-cluster normalisation with unicode-normalization)
+                let form = norm.map(|n| match n {
+                    Normalization::NFC => 0u8,
+                    Normalization::NFD => 1,
+                    Normalization::NFKC => 2,
+                    Normalization::NFKD => 3,
+                });
+                let l = if model::mixed_free(l) {
+                    let cl = model::clean_model(l);
+                    match form {
+                        Some(f) => model::normalize_model(&cl, f),
+                        None => cl,
+                    }
+                } else {
+                    out.label("line_with_mixed_cluster");
+                    let mut l = clean(l, true);
+                    if let Some(n) = norm {
+                        l = normalize(&l, n, true);
+                    }
+                    l
+                };
                 for w in model::split_ws_words(&l) {
                     *counts.entry(w.to_string()).or_insert(0) += 1;
                     let b = w.as_bytes();
